@@ -70,13 +70,14 @@ theorem read_eq_spec (u : User) (b : Board) : boardPermStat u b ≠ 0 ↔ Spec.m
 
 /-- bannedMsg (ban file + clock) exactly when a ban with a future expiry exists. -/
 theorem banned_eq_spec (b : Board) (now : Nat) : bannedMsg b now = true ↔ Spec.banned b now := by
-  unfold bannedMsg isBannedBy Spec.banned
-  cases hb : b.ban with
-  | none => simp
-  | some e =>
-    simp only [Option.some.injEq, exists_eq_left']
-    split <;> simp <;> omega
-
+  unfold bannedMsg isBannedBy isBannedByRec Board.banRec Spec.banned
+  cases hbr : b.banBroken
+  · cases hb : b.ban with
+    | none => simp
+    | some e =>
+      simp only [Option.some.injEq, exists_eq_left', Bool.false_eq_true, if_false, true_and]
+      split <;> simp <;> omega
+  · simp
 
 theorem readonly_eq_spec (b : Board) : isReadonlyBoard b.name = true ↔ Spec.readOnly b := by
   have e1 : Gen.WriteGuards.bnSecurity = Spec.securityName := by decide
@@ -438,6 +439,57 @@ theorem before_fix_removed_list_kept_friends :
     (∀ r row now, hbflReload r true row none now = row) ∧
     ∃ row uid now, uid ≠ 0 ∧ hbflScan uid (((hbflReload true true row none now).drop 1).take MAX_FRIEND) = true :=
   ⟨fun _ _ _ => rfl, hbflReload true false (hbflFresh 5) (some [40]) 6, 40, 7, by decide, by decide⟩
+
+/-! ### the ban record: the permission check only reads it -/
+
+/-- ptt.isBannedBy removes the record only under `err == nil && now > expireTS`. -/
+theorem source_ban_cleanup_only_readable : Gen.WriteGuards.banCleanupOnReadError = false := by decide
+
+/-- the check changes the record exactly when it could be read and has expired (then it removes it). -/
+theorem ban_check_removes_only_expired (r : BanRec) (now : Nat) :
+    (isBannedByRec false r now).2 ≠ r ↔ ∃ e, r = .expiry e ∧ e < (now : Int) := by
+  cases r with
+  | absent => simp [isBannedByRec]
+  | unreadable => simp [isBannedByRec]
+  | expiry e =>
+    simp only [isBannedByRec, BanRec.expiry.injEq, exists_eq_left']
+    split <;> simp <;> omega
+
+/-- a record that exists but cannot be read (empty, a directory, being written) survives any number of checks, and
+nobody is banned by it. -/
+theorem unreadable_record_survives (now : Nat) : isBannedByRec false .unreadable now = (0, .unreadable) := rfl
+
+/-- `Spec.banned` in terms of the record. -/
+theorem banned_iff_record (b : Board) (now : Nat) :
+    Spec.banned b now ↔ ∃ e, b.banRec = .expiry e ∧ (now : Int) < e := by
+  unfold Spec.banned Board.banRec
+  cases b.banBroken <;> cases b.ban <;> simp
+
+/-- once the record is complete — readable, expiry in the future — every one of the four operations refuses the
+user on that board (unless sysop), whatever the other facts and whatever checks ran while it was incomplete. -/
+theorem ban_in_force_refused (op : Op) (x : Row) (e : Int) (hrec : (op.written x).banRec = .expiry e)
+    (hfut : (x.now : Int) < e) (hs : ¬ Spec.sysop x.u) : ¬ accepted op x := by
+  intro hacc
+  have hb : Spec.banned (op.written x) x.now := (banned_iff_record _ _).mpr ⟨e, hrec, hfut⟩
+  have he := write_accepted_implies_rules_partial op x hacc
+  have hp : Spec.postRules x.u (op.written x) x.now := by
+    cases op <;> simp only [enforcedFor, rulesWith, Op.written] at he ⊢
+    · exact he.2.2.1
+    · exact he.2.2.1
+    · exact he.1.2.2.1
+    · exact he.2.2.1
+  unfold Spec.postRules at hp
+  rcases hp with h | ⟨h, _⟩
+  · exact hs h
+  · exact h hb
+
+/-- non-vacuity: the record `act` of the harness. -/
+example : ({ plainBoard nameSrc with ban := some ((fixedNow : Int) + 3600) } : Board).banRec = .expiry ((fixedNow : Int) + 3600) := by
+  decide
+
+/-- The broken rule (clean-up `if err != nil || now > expireTS`): a check that meets the record while it cannot be read
+removes it, so the ban the moderator is writing is lost. -/
+theorem cleanup_on_read_error_loses_ban (now : Nat) : (isBannedByRec true .unreadable now).2 = .absent := rfl
 
 /-! ### histories on one article: comments and edits move `Modified`, never the authorship -/
 
